@@ -48,7 +48,7 @@ Example cut_bonding_skeleton_nonvacuous : forall aa : bool,
 Proof.
   intros aa. destruct exC_hypotheses as (H1 & H2 & H3).
   destruct (cut_bonding_skeleton exC (wf_cutb_sound _ H1) (fragdict_of exC) (templates_okb_sound _ _ H2) (base_of exC) (is_baseb_sound _ _ H3) aa)
-    as (m1 & fg1 & m2 & fg2 & E1 & E2 & [K A E _]).
+    as (m1 & fg1 & m2 & fg2 & E1 & E2 & [K A E _ _]).
   { intros _ x Hx. cbn in Hx. repeat destruct Hx as [<-|Hx]; try contradiction; split; eexists; vm_compute; reflexivity. }
   exists m1, fg1, m2, fg2. split; [exact E1|]. split; [exact E2|]. split; [exact K|].
   assert (forall x, In x (flat exC) -> In x [11; 10; 15; 12; 13; 14]) as Hf by (intros x Hx; exact Hx).
